@@ -782,6 +782,201 @@ theorem revokeAdmin_print_parse (fuel : Nat) (s : PState) (user k : Str)
   rw [P.run_bind _ _ s2 user s3 h3]
   rfl
 
+/-! ### CREATE RETENTION POLICY -/
+
+/-- ` SHARD DURATION <d>` when positive (the printer's test). -/
+def shardText (sh : Int) : Str :=
+  if sh > 0 then ' ' :: (Token.SHARD.str ++ ' ' :: (Token.DURATION.str ++ ' ' :: formatDuration sh)) else []
+
+/-- ` DEFAULT` when set. -/
+def defaultText (b : Bool) : Str := if b then ' ' :: Token.DEFAULT.str else []
+
+/-- ` FUTURE LIMIT <d>` / ` PAST LIMIT <d>` when not zero. -/
+def limitText (t : Token) (v : Int) : Str :=
+  if v ≠ 0 then ' ' :: (t.str ++ ' ' :: (Token.LIMIT.str ++ ' ' :: formatDuration v)) else []
+
+theorem optText_shard (sh : Int) : OptText (shardText sh) := by
+  unfold shardText; split
+  · exact Or.inr ⟨_, rfl⟩
+  · exact Or.inl rfl
+theorem optText_default (b : Bool) : OptText (defaultText b) := by
+  unfold defaultText; split
+  · exact Or.inr ⟨_, rfl⟩
+  · exact Or.inl rfl
+theorem optText_limit (t : Token) (v : Int) : OptText (limitText t v) := by
+  unfold limitText; split
+  · exact Or.inr ⟨_, rfl⟩
+  · exact Or.inl rfl
+
+theorem nextNot_defaultText (b : Bool) (rest : Str) (t : Token) (hne : Token.DEFAULT ≠ t) (hr : NextNot rest t)
+    (hw : WordEnd rest) : NextNot (defaultText b ++ rest) t := by
+  unfold defaultText; split
+  · exact nextNot_kw .DEFAULT t rest (by decide +kernel) hne hw
+  · exact hr
+
+theorem nextNot_limitText (T : Token) (v : Int) (rest : Str) (t : Token) (hT : T.isKw = true) (hne : T ≠ t)
+    (hr : NextNot rest t) : NextNot (limitText T v ++ rest) t := by
+  unfold limitText; split
+  · simp only [List.append_assoc, List.cons_append]
+    exact nextNot_kw T t _ hT hne (WordEnd.blank _)
+  · exact hr
+
+/-- The optional `SHARD DURATION` clause of CREATE RETENTION POLICY on its printed form. -/
+theorem crp_shard (s : PState) (sh : Int) (rest : Str) (h0 : 0 ≤ sh) (hm : sh ≤ maxInt64)
+    (hs : s.Around (shardText sh ++ rest)) (hn : NextNot rest .SHARD) (hd : DurEnd rest) :
+    ∃ s', (do
+        if ← optTok .SHARD then
+          expectTok .DURATION ["DURATION"]
+          parseShardDuration
+        else pure 0 : P Int).run s = .ok (sh, s') ∧ s'.Around rest := by
+  unfold shardText at hs
+  by_cases hp : sh > 0
+  · rw [if_pos hp] at hs
+    simp only [List.append_assoc, List.cons_append] at hs
+    obtain ⟨s1, h1, b1⟩ := optTok_piece s [' '] Token.SHARD.str _ .SHARD [] Gap.blank hs
+      (scansAs_kw .SHARD _ (by decide +kernel) (WordEnd.blank _))
+    obtain ⟨s2, h2, b2⟩ := expectTok_piece s1 [' '] Token.DURATION.str _ .DURATION [] ["DURATION"] Gap.blank b1.around
+      (scansAs_kw .DURATION _ (by decide +kernel) (WordEnd.blank _))
+    obtain ⟨s3, h3, b3⟩ := parseShardDuration_piece s2 sh rest h0 hm b2.around hd
+    refine ⟨s3, ?_, b3.around⟩
+    rw [P.run_bind _ _ s true s1 h1]
+    simp only [if_true]
+    rw [P.run_bind _ _ s1 () s2 h2]
+    exact h3
+  · rw [if_neg hp] at hs
+    have : sh = 0 := by omega
+    subst this
+    obtain ⟨s1, h1, b1⟩ := optTok_absent_around .SHARD s rest hs hn
+    refine ⟨s1, ?_, b1⟩
+    rw [P.run_bind _ _ s false s1 h1]
+    rfl
+
+/-- The optional `DEFAULT` of CREATE RETENTION POLICY. -/
+theorem crp_default (s : PState) (b : Bool) (rest : Str) (hs : s.Around (defaultText b ++ rest))
+    (hn : NextNot rest .DEFAULT) (hw : WordEnd rest) :
+    ∃ s', (optTok .DEFAULT).run s = .ok (b, s') ∧ s'.Around rest := by
+  unfold defaultText at hs
+  cases b with
+  | true =>
+    obtain ⟨s1, h1, b1⟩ := optTok_piece s [' '] Token.DEFAULT.str rest .DEFAULT [] Gap.blank hs
+      (scansAs_kw .DEFAULT rest (by decide +kernel) hw)
+    exact ⟨s1, h1, b1.around⟩
+  | false => exact optTok_absent_around .DEFAULT s rest hs hn
+
+/-- The optional `FUTURE LIMIT` / `PAST LIMIT` clause of CREATE RETENTION POLICY. -/
+theorem crp_limit (t : Token) (ht : t.isKw = true) (s : PState) (v : Int) (rest : Str) (h0 : 0 ≤ v) (hm : v ≤ maxInt64)
+    (hs : s.Around (limitText t v ++ rest)) (hn : NextNot rest t) (hd : DurEnd rest) :
+    ∃ s', (do if ← optTok t then parseWriteLimit else pure 0 : P Int).run s = .ok (v, s') ∧ s'.Around rest := by
+  unfold limitText at hs
+  by_cases hp : v ≠ 0
+  · rw [if_pos hp] at hs
+    simp only [List.append_assoc, List.cons_append] at hs
+    obtain ⟨s1, h1, b1⟩ := optTok_piece s [' '] t.str _ t [] Gap.blank hs (scansAs_kw t _ ht (WordEnd.blank _))
+    obtain ⟨s2, h2, b2⟩ := parseWriteLimit_piece s1 v rest h0 hm b1.around hd
+    refine ⟨s2, ?_, b2.around⟩
+    rw [P.run_bind _ _ s true s1 h1]
+    simp only [if_true]
+    exact h2
+  · rw [if_neg hp] at hs
+    have : v = 0 := by omega
+    subst this
+    obtain ⟨s1, h1, b1⟩ := optTok_absent_around t s rest hs hn
+    refine ⟨s1, ?_, b1⟩
+    rw [P.run_bind _ _ s false s1 h1]
+    rfl
+
+/-- What CREATE RETENTION POLICY prints after its keywords. -/
+def crpText (name db : Str) (d : Int) (n : Nat) (sh : Int) (dflt : Bool) (fu pa : Int) : Str :=
+  ' ' :: (qi name ++ ' ' :: (Token.ON.str ++ ' ' :: (qi db ++ ' ' :: (Token.DURATION.str ++ ' ' :: (formatDuration d ++
+    ' ' :: (Token.REPLICATION.str ++ ' ' :: (natDigits n ++ (shardText sh ++ (defaultText dflt ++
+      (limitText .FUTURE fu ++ limitText .PAST pa))))))))))
+
+theorem createRetentionPolicy_print (name db : Str) (d : Int) (n : Nat) (sh : Int) (dflt : Bool) (fu pa : Int) :
+    (Statement.createRetentionPolicy name db d (n : Int) dflt sh fu pa).print =
+      tx "CREATE RETENTION POLICY" ++ crpText name db d n sh dflt fu pa := by
+  have p1 : (Statement.createRetentionPolicy name db d (n : Int) dflt sh fu pa).print =
+      tx "CREATE RETENTION POLICY " ++ qi name ++ tx " ON " ++ qi db ++ tx " DURATION " ++ formatDuration d ++
+      tx " REPLICATION " ++ intDigits (n : Int) ++
+      (if sh > 0 then tx " SHARD DURATION " ++ formatDuration sh else []) ++
+      (if dflt then tx " DEFAULT" else []) ++
+      (if fu ≠ 0 then tx " FUTURE LIMIT " ++ formatDuration fu else []) ++
+      (if pa ≠ 0 then tx " PAST LIMIT " ++ formatDuration pa else []) := rfl
+  have hd : intDigits (n : Int) = natDigits n := by unfold intDigits; simp
+  have e1 : tx "CREATE RETENTION POLICY " = tx "CREATE RETENTION POLICY" ++ [' '] := by decide +kernel
+  have e2 : tx " DURATION " = ' ' :: (Token.DURATION.str ++ [' ']) := by decide +kernel
+  have e3 : tx " REPLICATION " = ' ' :: (Token.REPLICATION.str ++ [' ']) := by decide +kernel
+  have e4 : tx " SHARD DURATION " = ' ' :: (Token.SHARD.str ++ ' ' :: (Token.DURATION.str ++ [' '])) := by
+    decide +kernel
+  have e5 : tx " DEFAULT" = ' ' :: Token.DEFAULT.str := by decide +kernel
+  have e6 : tx " FUTURE LIMIT " = ' ' :: (Token.FUTURE.str ++ ' ' :: (Token.LIMIT.str ++ [' '])) := by decide +kernel
+  have e7 : tx " PAST LIMIT " = ' ' :: (Token.PAST.str ++ ' ' :: (Token.LIMIT.str ++ [' '])) := by decide +kernel
+  rw [p1, hd, e1, e2, e3, e4, e5, e6, e7, tx_on]
+  unfold crpText shardText defaultText limitText
+  split <;> split <;> split <;> split <;>
+    simp only [List.append_assoc, List.cons_append, List.nil_append, List.append_nil]
+
+/-- **Print → parse, CREATE RETENTION POLICY** with every combination of its optional clauses, for
+all values in the ranges the parser guarantees (`ParseDuration` returns a non-negative `int64`,
+the replication factor is read by `ParseInt(1, MaxInt32)`). A zero shard duration / write limit
+prints nothing and is read back as zero. The handler ends around `k`: it looks one token ahead
+unless the statement ends with `PAST LIMIT`; `k` must not begin with a token that opens one of
+the optional clauses. -/
+theorem createRetentionPolicy_print_parse (fuel : Nat) (s : PState) (name db : Str) (d : Int) (n : Nat)
+    (sh : Int) (dflt : Bool) (fu pa : Int) (k : Str) (hex1 : Expressible name) (hex2 : Expressible db)
+    (hd : 0 ≤ d ∧ d ≤ maxInt64) (hn : 1 ≤ n ∧ (n : Int) ≤ maxInt32) (hsh : 0 ≤ sh ∧ sh ≤ maxInt64)
+    (hfu : 0 ≤ fu ∧ fu ≤ maxInt64) (hpa : 0 ≤ pa ∧ pa ≤ maxInt64) (hk : TokEnd k)
+    (hstop : ∀ t ∈ [Token.SHARD, .DEFAULT, .FUTURE, .PAST], NextNot k t)
+    (hs : s.Before (crpText name db d n sh dflt fu pa ++ k)) :
+    ∃ s', (runHandler fuel .parseCreateRetentionPolicyStatement).run s =
+        .ok (.createRetentionPolicy name db d (n : Int) dflt sh fu pa, s') ∧ s'.Around k := by
+  have e : crpText name db d n sh dflt fu pa ++ k = ' ' :: (qi name ++ ' ' :: (Token.ON.str ++ ' ' :: (qi db ++
+      ' ' :: (Token.DURATION.str ++ ' ' :: (formatDuration d ++ ' ' :: (Token.REPLICATION.str ++ ' ' :: (natDigits n ++
+      (shardText sh ++ (defaultText dflt ++ (limitText .FUTURE fu ++ (limitText .PAST pa ++ k))))))))))) := by
+    simp only [crpText, List.append_assoc, List.cons_append]
+  rw [e] at hs
+  -- what may follow each optional clause
+  have k4 : TokEnd (limitText .PAST pa ++ k) := TokEnd.opt (optText_limit _ _) hk
+  have k3 : TokEnd (limitText .FUTURE fu ++ (limitText .PAST pa ++ k)) := TokEnd.opt (optText_limit _ _) k4
+  have k2 : TokEnd (defaultText dflt ++ (limitText .FUTURE fu ++ (limitText .PAST pa ++ k))) :=
+    TokEnd.opt (optText_default _) k3
+  have k1 : TokEnd (shardText sh ++ (defaultText dflt ++ (limitText .FUTURE fu ++ (limitText .PAST pa ++ k)))) :=
+    TokEnd.opt (optText_shard _) k2
+  have n4 : NextNot k .PAST := hstop _ (by simp)
+  have n3 : NextNot (limitText .PAST pa ++ k) .FUTURE :=
+    nextNot_limitText .PAST pa k .FUTURE (by decide +kernel) (by decide) (hstop _ (by simp))
+  have n2 : NextNot (limitText .FUTURE fu ++ (limitText .PAST pa ++ k)) .DEFAULT :=
+    nextNot_limitText .FUTURE fu _ .DEFAULT (by decide +kernel) (by decide)
+      (nextNot_limitText .PAST pa k .DEFAULT (by decide +kernel) (by decide) (hstop _ (by simp)))
+  have n1 : NextNot (defaultText dflt ++ (limitText .FUTURE fu ++ (limitText .PAST pa ++ k))) .SHARD :=
+    nextNot_defaultText dflt _ .SHARD (by decide)
+      (nextNot_limitText .FUTURE fu _ .SHARD (by decide +kernel) (by decide)
+        (nextNot_limitText .PAST pa k .SHARD (by decide +kernel) (by decide) (hstop _ (by simp)))) k3.1
+  obtain ⟨s1, h1, b1⟩ := parseIdent_piece s [' '] (qi name) _ name Gap.blank hs.around
+    (scansAs_ident name _ hex1 (.of_wordEnd (WordEnd.blank _)))
+  obtain ⟨s2, h2, b2⟩ := expectTok_piece s1 [' '] Token.ON.str _ .ON [] ["ON"] Gap.blank b1.around
+    (scansAs_kw .ON _ (by decide +kernel) (WordEnd.blank _))
+  obtain ⟨s3, h3, b3⟩ := parseIdent_piece s2 [' '] (qi db) _ db Gap.blank b2.around
+    (scansAs_ident db _ hex2 (.of_wordEnd (WordEnd.blank _)))
+  obtain ⟨s4, h4, b4⟩ := expectTok_piece s3 [' '] Token.DURATION.str _ .DURATION [] ["DURATION"] Gap.blank b3.around
+    (scansAs_kw .DURATION _ (by decide +kernel) (WordEnd.blank _))
+  obtain ⟨s5, h5, b5⟩ := parseDurationTok_piece s4 [' '] (formatDuration d) _ d hd.1 hd.2 Gap.blank b4.around
+    (scansAs_dur d hd.1 _ (DurEnd.blank _))
+  obtain ⟨s6, h6, b6⟩ := expectTok_piece s5 [' '] Token.REPLICATION.str _ .REPLICATION [] ["REPLICATION"] Gap.blank
+    b5.around (scansAs_kw .REPLICATION _ (by decide +kernel) (WordEnd.blank _))
+  obtain ⟨s7, h7, b7⟩ := parseIntRange_piece s6 [' '] (natDigits n) _ 1 maxInt32 n (by omega) hn.2
+    (by have := hn.2; unfold maxInt32 at this; unfold maxInt64; omega) Gap.blank b6.around (scansAs_nat n _ k1.2.1)
+  obtain ⟨s8, h8, b8⟩ := crp_shard s7 sh _ hsh.1 hsh.2 b7.around n1 k2.2.2
+  obtain ⟨s9, h9, b9⟩ := crp_default s8 dflt _ b8 n2 k3.1
+  obtain ⟨s10, h10, b10⟩ := crp_limit .FUTURE (by decide +kernel) s9 fu _ hfu.1 hfu.2 b9 n3 k4.2.2
+  obtain ⟨s11, h11, b11⟩ := crp_limit .PAST (by decide +kernel) s10 pa k hpa.1 hpa.2 b10 n4 hk.2.2
+  refine ⟨s11, ?_, b11⟩
+  simp only [runHandler, parseCreateRetentionPolicy]
+  rw [P.run_bind _ _ s name s1 h1, P.run_bind _ _ s1 () s2 h2, P.run_bind _ _ s2 db s3 h3,
+    P.run_bind _ _ s3 () s4 h4, P.run_bind _ _ s4 d s5 h5, P.run_bind _ _ s5 () s6 h6,
+    P.run_bind _ _ s6 (n : Int) s7 h7, P.run_bind _ _ s7 sh s8 h8, P.run_bind _ _ s8 dflt s9 h9,
+    P.run_bind _ _ s9 fu s10 h10, P.run_bind _ _ s10 pa s11 h11]
+  rfl
+
 /-! ## the dispatch keywords at text level
 
 `ParseStatement` walks the tree of parse_tree.go along the statement's keywords. On the printed
